@@ -3,6 +3,7 @@
 #include "hx.h"
 #include "ref.h"
 #include "sysrand.h"
+#include <errno.h>
 #include <ascon/random.h>
 #include <ascon/permutation.h>
 
@@ -160,6 +161,23 @@ static void influence(const pop *h, int hl)
     }
 }
 
+/* benign deviation of the system source: one transient failure (EINTR / EAGAIN) before call k succeeds; the source is healthy, so every status, output and state must equal the uninterrupted run */
+static void transient(const pop *h, int hl)
+{
+    static trace base, alt; char hs[200]; hstr(h, hl, hs, sizeof hs);
+    st_read_ret = 32; st_write_ret = 32;
+    sysrand_reset(hx_seed); st_reads = st_writes = 0; memset(bigbuf, 0xC5, 16385 + 64); run_history(h, hl, 0, 32, &base);
+    unsigned ncalls = sysrand_calls; if (ncalls > 8) ncalls = 8;
+    for (unsigned k = 0; k < ncalls; k++) for (int e = 0; e < 2; e++) {
+        sysrand_reset(hx_seed); sysrand_eintr_mask = (uint64_t)1 << k; sysrand_eintr_errno = e ? EAGAIN : EINTR; st_reads = st_writes = 0; memset(bigbuf, 0xC5, 16385 + 64);
+        /* run_history resets the fail mask only; the transient mask stays */
+        run_history(h, hl, 0, 32, &alt); nruns++; sysrand_eintr_errno = EINTR;
+        int same = alt.init_status == base.init_status && !memcmp(alt.init_state, base.init_state, 40);
+        for (int i = 0; i < hl && same; i++) same = alt.status[i] == base.status[i] && !memcmp(alt.out[i], base.out[i], 40) && !memcmp(alt.tail[i], base.tail[i], 8) && !memcmp(alt.state[i], base.state[i], 40) && alt.count[i] == base.count[i] && alt.mode[i] == base.mode[i];
+        if (!same) hx_fail("prng:status:transient-failure", "one %s before system-source call %u succeeds changes a status, an output or the state (init status %d vs %d): history [%s]", e ? "EAGAIN" : "EINTR", k, alt.init_status, base.init_status, hs);
+    }
+}
+
 static int DEPTH, TIER;
 static void rec(pop *h, int n)
 {
@@ -176,6 +194,7 @@ static void rec(pop *h, int n)
             judge(h, n, 0, 31, 32, 32, "storage-size=31");
             if (TIER) for (int r = 0; r < 4; r++) for (int w = 0; w < 4; w++) { char p[64]; snprintf(p, sizeof p, "storage-read=%d,write=%d,entropy-fail-mask=1", rets[r], rets[w]); judge(h, n, 1, 32, rets[r], rets[w], p); }
         }
+        if (n <= 2 || TIER) transient(h, n);
         if (small && n <= 3 && (n <= 2 || TIER || (h[0].k != K_FETCH))) influence(h, n);
     }
     if (n == DEPTH) return;
